@@ -272,7 +272,6 @@ func runStyle(sc styleCase, r *rand.Rand) ([]finding, caseStats) {
 		us += sc.UserInfo + "@"
 	}
 	us += hp + withQ(sc.Path, sc.Query, sc.HasQ)
-	suffix := ""
 	inClass := atSignClass(us, sc.baseString(hp))
 	for i := range sc.Controls {
 		p, also := sc.accepted(hp, i)
@@ -290,13 +289,13 @@ func runStyle(sc styleCase, r *rand.Rand) ([]finding, caseStats) {
 	order := r.Perm(len(sc.Controls))
 	desc, _, err := cl.Describe(u)
 	if err != nil {
-		add("control-style/"+style+"/describe-failed"+suffix, fmt.Sprintf("DESCRIBE failed: %v", err), "describe")
+		add("control-style/"+style+"/describe-failed", fmt.Sprintf("DESCRIBE failed: %v", err), "describe")
 	} else if len(desc.Medias) != len(sc.Controls) {
 		add("control-style/"+style+"/media-count-differs", fmt.Sprintf("%d medias parsed, %d described", len(desc.Medias), len(sc.Controls)), "describe")
 	} else {
 		for _, i := range order {
 			if _, err := cl.Setup(desc.BaseURL, desc.Medias[i], 0, 0); err != nil {
-				add("control-style/"+style+"/setup-failed"+suffix, fmt.Sprintf("SETUP of media %d (a=control:%s) failed: %v", i, sc.Controls[i], err), "setup")
+				add("control-style/"+style+"/setup-failed", fmt.Sprintf("SETUP of media %d (a=control:%s) failed: %v", i, sc.Controls[i], err), "setup")
 				order = order[:0]
 				break
 			}
@@ -333,7 +332,7 @@ func runStyle(sc styleCase, r *rand.Rand) ([]finding, caseStats) {
 		case len(also) > 0 && got == normURL(also[0]):
 			run.Count("control-style-resolution:alternative("+sc.Ctl+")", 1)
 		default:
-			add("control-style/"+style+"/setup-url-differs"+suffix,
+			add("control-style/"+style+"/setup-url-differs",
 				fmt.Sprintf("base %q (%s), a=control:%s : SETUP request URL is %q, expected %q%s", sc.baseString(hp), sc.Base, strings.ReplaceAll(sc.Controls[i], "{HP}", hp), p[1], primary,
 					map[bool]string{true: " or " + strings.Join(also, " or "), false: ""}[len(also) > 0]), "setup")
 		}
@@ -433,6 +432,16 @@ func (w *worker) runInverse(ic inverseCase, r *rand.Rand) ([]finding, caseStats)
 	if err != nil || mu == nil {
 		add("inverse/media-url-failed/"+cls, fmt.Sprintf("Media.URL(%q) with control %q: %v", cb[0], d.Medias[ic.Media].Control, err), "setup")
 		return finish()
+	}
+	// the server's own style must mean the same URL to a client that resolves the control
+	// attribute strictly by RFC 2326 C.1.1 / RFC 1808 (decidable for URLs without a query: with
+	// one, the FFmpeg layout "query/trackID=n" has no RFC reading)
+	if !c.HasQ {
+		st.attributions++
+		if strict := rfc1808(cb[0], d.Medias[ic.Media].Control); normURL(strict) != normURL(mu.String()) {
+			add("inverse/content-base/rfc1808-resolution-differs", fmt.Sprintf("Content-Base %q + a=control:%s is %q by RFC 1808, the library client requests %q",
+				cb[0], d.Medias[ic.Media].Control, strict, mu.String()), "describe")
+		}
 	}
 	// server side of the pair: a real ServerSession SETUP
 	res, ok = do("SETUP", mu.String(), map[string]string{"Transport": "RTP/AVP/TCP;unicast;interleaved=0-1"})
